@@ -5,6 +5,7 @@ import (
 	"encoding/binary"
 	"encoding/hex"
 	"fmt"
+	"runtime"
 	"strconv"
 	"strings"
 	"testing"
@@ -790,7 +791,13 @@ func c14MySQL(t *testing.T, plan *kernel.Plan, keepLog bool) *kernel.Result {
 		if plan.Sw("cells") == 1 {
 			pw.DB.Corrupt = c14CorruptCells()
 		}
+		var m0, m1 runtime.MemStats
+		runtime.ReadMemStats(&m0)
 		run := pw.RunSession(owner, script)
+		runtime.ReadMemStats(&m1)
+		if grown := m1.TotalAlloc - m0.TotalAlloc; grown > c14AllocLimit {
+			w.Violate("C14", "allocation-bounded", "mysql/session", fmt.Sprintf("a session that exchanged %d bytes made the process allocate %d MiB", len(run.ToDB.Log)+len(run.FromDB.Log)+len(run.ToClient.Log)+len(run.FromCl.Log), grown>>20))
+		}
 		for i, p := range pw.Panics {
 			stack := ""
 			if i < len(pw.Stacks) {
